@@ -271,6 +271,11 @@ def fam_slices(tier):
         for b in range(-lim, lim + 1):
             rules.append("PEEK[%d..%d]" % (a, b))
     rules += ["PEEK", "POP", "DROP", "PEEK_ALL", "POP_ALL", "PEEK[..]", "POP ~ POP", "DROP ~ PEEK", "PEEK ~ PEEK", "POP_ALL ~ PEEK?", "DROP ~ DROP ~ DROP ~ DROP ~ DROP?"]
+    # the stack the built-ins see after abandoned attempts that popped (nested optionals, choice in optional, predicate in optional)
+    for op in ["PEEK_ALL", "PEEK[0..1]", "POP", "PEEK[-1..]", "DROP ~ PEEK?", "POP_ALL"]:
+        rules.append('(POP? ~ "x")? ~ ' + op)
+        rules.append('((DROP | "y")? ~ "x")? ~ ' + op)
+        rules.append('(&(POP? ~ POP?) ~ DROP? ~ "x")? ~ ' + op)
     out = []
     per = 10
     for gi in range(0, len(rules), per):
@@ -525,10 +530,13 @@ def fam_skipuntil(tier):
              rule("k2", '(!("ab" | "b" | "c") ~ ANY)* ~ ANY?', "atomic"), rule("k3", '"/*" ~ (!"*/" ~ ANY)* ~ "*/"', "atomic"),
              rule("k4", '(!("é" | ";") ~ ANY)* ~ ";"', "atomic"), rule("k5", '(!"中" ~ ANY)* ~ "中" ~ (!("a" | "中") ~ ANY)*', "atomic"),
              rule("k6", '"\'" ~ (!"\'" ~ ANY)* ~ "\'"', "atomic"), rule("k7", '(!("c" | "bc" | "abc") ~ ANY)* ~ ("abc" | "bc" | "c")', "atomic"),
+             # terminators that contain / repeat one another (none is redundant unless it has another as a *prefix*)
+             rule("k8", '(!("ba" | "a") ~ ANY)* ~ ANY?', "atomic"), rule("k9", '(!("\\r\\n" | "\\n") ~ ANY)* ~ NEWLINE?', "atomic"),
+             rule("k10", '(!("cab" | "b" | "ab" | "b") ~ ANY)*', "atomic"),
              rule("n0", 'k0 ~ "b" ~ k2', "nonatomic"), rule("n1", "k3+")]
     g1 = dict(id="su0", text="\n".join(lines), alphabet=cps("abc\n"), maxlen=3 if tier == "quick" else 4,
               inputs=[cps(s) for s in ["a\nb\r\nc", "cab", "xxabc", "aaab", "/**/", "/*a*/", "/* é */", "/*é*/", "/*中*/", "é;", "éé;", "a中;", "中é;é", "'é'", "'中😀'", "ab中a", "é中é中a",
-                                        "😀😀;", "aé;", "/*😀*/x", "/*a*", "aaé;"]])
+                                        "😀😀;", "aé;", "/*😀*/x", "/*a*", "aaé;", "cba", "ccab", "x\r\n", "\rx\r\n", "c\r\n\n"]])
     return [g1]
 
 
@@ -624,7 +632,12 @@ def fam_odd(tier):
     # the generated rules::EOI used as an entry point (with and without skip rules defined)
     e1 = dict(id="odd1", text='a = { "a"* }\nz = { "z" ~ EOI }\nWHITESPACE = _{ " " }\nCOMMENT = _{ "#" }', alphabet=cps("a #"), maxlen=2, entries=["EOI", "a"])
     e2 = dict(id="odd2", text='a = @{ "a"* ~ EOI }\nb = { !EOI ~ ANY ~ EOI }', alphabet=cps("a "), maxlen=2, entries=["EOI", "a", "b"])
-    return [g, e1, e2]
+    # line terminators inside atomic rules (which only check): CRLF must be one NEWLINE on both paths
+    e3 = dict(id="odd3", text='line = @{ (!NEWLINE ~ ANY)* ~ NEWLINE }\nfile = { SOI ~ line* ~ EOI }\nnl2 = @{ "x" ~ NEWLINE }\nnl3 = ${ "x" ~ NEWLINE ~ "y"? }\n'
+                              'nl4 = { "x" ~ !NEWLINE ~ ANY }\nnl5 = @{ ("x" | NEWLINE){2} }\nnl6 = { (nl2 | "x" ~ "\\r")+ }',
+              alphabet=[120, 13, 10, 121], maxlen=3 if tier == "quick" else 4,
+              inputs=[cps(x) for x in ["ab\r\ncd\r\n", "ab\ncd\r\n\r\n", "x\r\ny", "x\r\n", "\r\n\r\n", "ab\rcd\n", "x\r\nx\rx\n", "x\rx\r\n"]])
+    return [g, e1, e2, e3]
 
 
 def fam_memo(tier):
@@ -656,3 +669,23 @@ def fam_memo(tier):
         out.append(g)
     read = peg.pest_read(out, "mm_f")
     return [g for g, r in zip(out, read) if r.get("valid")]
+
+
+def fam_long(tier):
+    """Failures far to the right on lines with multi-byte characters (columns 30..70, after line breaks and tabs): the error
+    report is built from line / column arithmetic on such lines and must neither panic nor point elsewhere. Failures are
+    reported where a *rule* failed, so the tail is a rule of its own."""
+    text = "\n".join(['it = { "é" | "a" | "中" | "😀" | "\t" }', 'bang = { "!" }', 'r0 = { it* ~ bang }', 'r1 = ${ it* ~ bang }', 'r2 = { (it ~ NEWLINE?)* ~ bang }',
+                      'r3 = { (!"?" ~ ANY)* ~ bang }', 'r4 = @{ (it | NEWLINE)* ~ "?" ~ bang }'])
+    ins = []
+    for k in (30, 32, 33, 34, 35, 40, 64, 65):
+        for unit in ("é", "中", "😀", "aé", "a"):
+            ins.append(unit * k + "?")
+            ins.append("a" + unit * k + "?")
+    for k in (31, 33, 34, 36):
+        ins.append("é\n" + "é" * k + "?")
+        ins.append("éa" * 3 + "\r\n" + "中" * k + "?")
+        ins.append("é\n" + "\t中" * (k // 2) + "?")
+        ins.append("é" * k + "\n?")
+    g = dict(id="lg0", text=text, alphabet=[233, 97], maxlen=1, inputs=[cps(x) for x in ins], entries=["r0", "r1", "r2", "r3", "r4"])
+    return [g]
